@@ -97,7 +97,8 @@ def run_finder(group, known, log):
     from .groups.base import merge_by_hyp
     from . import harness
     c = group.contract
-    c.known = tuple(known)
+    from .groups.base import compile_known
+    c.known = tuple(compile_known(known))
     pool = solve.pool()
     for size in getattr(group, 'finder_sizes', ()):
         try:
@@ -138,10 +139,10 @@ def check_property(pid, tier, cache=True, only_groups=None):
     for k in known_all:
         if k.get('carve_out') and k.get('group'):
             for gn in ([k['group']] + list(k.get('also_groups', []))):
-                known_by_group.setdefault(gn, []).append(carve_fn(k['carve_out']))
+                known_by_group.setdefault(gn, []).append(('carve', k['carve_out']))
         if k.get('native_match'):
             for gn in k.get('groups', []):
-                known_by_group.setdefault(gn, []).append(eval("lambda d: " + k['native_match'], {}))
+                known_by_group.setdefault(gn, []).append(('native', k['native_match']))
     log("== %s (%s tier): %d obligation groups: %s" % (pid, tier, len(gnames), ', '.join(gnames)))
     results, timing = runmod.run_groups(gnames, tier, known_by_group, log, cache=cache)
     violations, undecided, crashes = [], [], []
